@@ -6,5 +6,6 @@ INVARIANT NamesDefined
 INVARIANT SourceNamesDefined
 INVARIANT DatasheetPinNames
 INVARIANT FunctionIsDatasheet
+INVARIANT SimulatedIsDatasheet
 INVARIANT Combinational
 CHECK_DEADLOCK FALSE
